@@ -324,8 +324,20 @@ def ods_case(rng, cid, known_ok=True):
         styles.append(("tah", "f"))
     vis_styles = [s for s, d in styles if d != "f"]
     hid_styles = [s for s, d in styles if d == "f"]
-    sheets, contents, strings_of = [], [], {}
+    sheets, contents, afters, lnames, lopts, strings_of = [], [], [], [], [], {}
     apool = [[], [], [("table:print", "false")], [("table:protected", "true"), ("x", "a<b")]]
+    npool = [[], [], [("table:base-cell-address", "$S.$A$1")], [("table:range-usable-as", "none")]]
+    pretty = rng.random() < 0.4            # an indented document
+    def name_item(dn):
+        text = rng.choice(["$S.$A$1", "$'a b'.$A$1:.$B$2", "[.A1]+1", "x<y&\"z\"", ""]) \
+            if rng.random() < 0.7 else mg.gen_name(rng, 20)
+        pre_ = rng.choice(npool)
+        return ":".join([hxs(dn), hxs(text), str(int(rng.random() < 0.4)), str(int(rng.random() < 0.5)),
+                         attrs_wire(pre_), attrs_wire(disjoint(rng, npool, pre_))])
+    def names_junk():
+        if pretty:
+            return [T("\n     ")]
+        return rng.choice([[T("\n  ")], [O], [T("\n"), O, T(" ")]]) if (known_ok and rng.random() < 0.3) else []
     for name, v, k in wb["sheets"]:
         if v == "h":
             st = rng.choice(hid_styles)
@@ -333,25 +345,38 @@ def ods_case(rng, cid, known_ok=True):
             st = rng.choice(vis_styles + [None]) if vis_styles else None
         strs = [mg.gen_name(rng, 6) for _ in range(rng.randrange(0, 3))]
         strings_of[name] = strs
-        contents.append(wire(mg.ods_rows_events(strs)) or "-")
+        cols = [S("table:table-column", [("table:number-columns-repeated", "3")]), E("table:table-column")]
+        ws = [T("\n   ")] if pretty else []
+        rows = mg.ods_rows_events(strs, pretty)
+        # the names whose scope is this sheet (LibreOffice: every name made with "Scope: Sheet");
+        # their element stands first among the children of the table (LibreOffice), last (the
+        # schema's place) or between the columns and the rows; a name may repeat a global one
+        ln = []
+        if rng.random() < 0.5:
+            for _ in range(rng.choice([1, 1, 2, 3])):
+                ln.append(rng.choice(wb["dnames"]) if wb["dnames"] and rng.random() < 0.3 else mg.gen_name(rng, 8))
+        place = rng.random()
+        if place < 0.5:
+            before, after = ws, ws + cols + rows
+        elif place < 0.8:
+            before, after = ws + cols + rows + ws, ws
+        else:
+            before, after = ws + cols + ws, rows + ws
+        contents.append(wire(before) or "-")
+        afters.append(wire(after) or "-")
+        lnames.append(lst([name_item(x) for x in ln]))
+        lopts.append("%d@%s" % (int(rng.random() < 0.7), wire(names_junk()) or "-"))
         pre_ = rng.choice(apool)
         sheets.append(":".join([hxs(name), v, k, hx(st) if st is not None else "-",
                                 attrs_wire(pre_), attrs_wire(disjoint(rng, apool, pre_)),
                                 str(int(rng.random() < 0.5))]))
-    names = []
-    npool = [[], [], [("table:base-cell-address", "$S.$A$1")], [("table:range-usable-as", "none")]]
-    for dn in wb["dnames"]:
-        text = rng.choice(["$S.$A$1", "$'a b'.$A$1:.$B$2", "[.A1]+1", "x<y&\"z\"", ""]) \
-            if rng.random() < 0.7 else mg.gen_name(rng, 20)
-        wb.setdefault("dtexts", []).append(text)
-        pre_ = rng.choice(npool)
-        names.append(":".join([hxs(dn), hxs(text), str(int(rng.random() < 0.4)), str(int(rng.random() < 0.5)),
-                               attrs_wire(pre_), attrs_wire(disjoint(rng, npool, pre_))]))
-    njunk = []
-    if known_ok and rng.random() < 0.3:
-        njunk = rng.choice([[T("\n  ")], [O], [T("\n"), O, T(" ")]])
-    args = [wire(junk_events_ods(rng)) or "-", wire(njunk) or "-", str(int(rng.random() < 0.5)),
-            lst(["%s:%s" % (hx(a), b) for a, b in styles]), lst(sheets), ";".join(contents) or "-", lst(names)]
+        wb.setdefault("lnames", []).append(ln)
+    names = [name_item(dn) for dn in wb["dnames"]]
+    njunk = names_junk()
+    junk = [T("\n  ")] if pretty else junk_events_ods(rng)
+    args = [wire(junk) or "-", wire(njunk) or "-", str(int(rng.random() < 0.5)),
+            lst(["%s:%s" % (hx(a), b) for a, b in styles]), lst(sheets), ";".join(contents) or "-", lst(names),
+            ";".join(afters) or "-", ";".join(lnames) or "-", ";".join(lopts) or "-"]
     return {"id": cid, "fmt": "ods", "wb": wb, "line": "%s\tmeta\tods\t%s" % (cid, "\t".join(args)),
             "strings": strings_of}
 
@@ -459,6 +484,8 @@ def run_structured(ctx, cases, tag):
         ctx.count("fmt:" + fmt)
         ctx.count("%s:sheets=%d" % (fmt, len(c["wb"]["sheets"])))
         ctx.count("%s:names=%d" % (fmt, len(c["wb"]["dnames"])))
+        if fmt == "ods":
+            ctx.count("ods:sheet-scoped-names=%d" % sum(len(x) for x in c["wb"].get("lnames", [])))
         ctx.count("%s:date1904=%d" % (fmt, int(c["wb"]["d1904"])))
         for n, v, k in c["wb"]["sheets"]:
             ctx.count("%s:%s/%s" % (fmt, v, k))
@@ -706,7 +733,30 @@ def corpus(ctx):
     for fmt in ("xlsx", "xlsb", "xls", "ods"):
         for k in range(6):
             cases.append(CASE[fmt](rng, "k%s%d" % (fmt, k)) if fmt == "xlsb" else CASE[fmt](rng, "k%s%d" % (fmt, k), known_ok=(k >= 3)))
+    cases += ods_local_names_corpus()
     return cases
+
+
+def ods_local_names_corpus():
+    """the former defect ODS-2 (notes/AUDIT2.md): sheet-scoped names, written LibreOffice's way
+    (first child of the table) and where the schema puts them (last child), one of them with the
+    name of a global one; expected: every name, in document order"""
+    def item(n, t, expr=0):
+        return ":".join([hxs(n), hxs(t), str(expr), "0", "-", "-"])
+    rows = wire(mg.ods_rows_events(["a"]))
+    out = []
+    for cid, place in (("kodsL0", "first"), ("kodsL1", "last")):
+        before, after = ("-", rows) if place == "first" else (rows, "-")
+        sheets = [":".join([hxs("S1"), "v", "ws", "-", "-", "-", "0"]), ":".join([hxs("S2"), "v", "ws", "-", "-", "-", "0"]),
+                  ":".join([hxs("S3"), "v", "ws", "-", "-", "-", "0"])]
+        lnames = [lst([item("loc", "$S1.$A$1:.$B$1"), item("glob", "[.A1]*2", 1)]), "-", lst([item("loc3", "$S3.$C$3")])]
+        args = ["-", "-", "0", "-", lst(sheets), ";".join([before] * 3), lst([item("glob", "$S1.$A$1")]),
+                ";".join([after] * 3), ";".join(lnames), ";".join(["1@-", "1@-", "0@" + wire([T("\n  ")])])]
+        wb = {"sheets": [("S1", "v", "ws"), ("S2", "v", "ws"), ("S3", "v", "ws")], "dnames": ["glob"], "d1904": False,
+              "lnames": [["loc", "glob"], [], ["loc3"]]}
+        out.append({"id": cid, "fmt": "ods", "wb": wb, "line": "%s\tmeta\tods\t%s" % (cid, "\t".join(args)),
+                    "strings": {"S1": ["a"], "S2": ["a"], "S3": ["a"]}})
+    return out
 
 
 def batch(ctx, n, tag):
